@@ -1,7 +1,7 @@
 #!/bin/bash
 # seeds.sh "<ids>" "<seeds>" : run quick checks for several seeds in parallel, report only non-clean runs
 ids="$1"; seeds="$2"
-cd /verif
+cd "$(dirname "${BASH_SOURCE[0]}")/.."
 for id in $ids; do for s in $seeds; do
   ( out=$(./check $id --tier quick --no-evidence --seed $s 2>&1); rc=$?; echo "$id seed=$s rc=$rc $(echo "$out" | grep -c VIOLATION) violations; $(echo "$out" | grep 'bucket' | head -3 | tr '\n' ' ' | cut -c1-300)" ) &
 done; wait; done
